@@ -3,7 +3,7 @@
    last-chunk, and a trailer section -- followed by arbitrary further octets. *)
 From Coq Require Import ZArith.
 From Httoop Require Import Model.Parser Model.Composer Proofs.SplitP Proofs.HeadersP Proofs.ParserEsc Proofs.ParserFuel
-  Proofs.ParserFraming Proofs.ParserFrag Proofs.ParserSim Proofs.ParserBridge Proofs.ParserWf Proofs.DecimalP Proofs.Http1ReaderP Proofs.ComposerNum Proofs.RoundTrip.
+  Proofs.ParserFraming Proofs.ParserFrag Proofs.ParserSim Proofs.ParserBridge Proofs.ParserQuiet Proofs.ParserWf Proofs.DecimalP Proofs.Http1ReaderP Proofs.ComposerNum Proofs.RoundTrip.
 Local Open Scope N_scope.
 
 Section Chunked.
@@ -374,3 +374,18 @@ Proof.
 Qed.
 
 End Pipeline.
+
+(* ---- the client machine as implemented, every fragmentation, no hypothesis about the run ---- *)
+Theorem client_pipeline_fragmented_real (PC : callees) (ms : list wmsg) (frags : list bytes) :
+  Forall (w_ok PC Client) ms -> Forall (fun m => no_lf (w_line m) = true) ms ->
+  concat_bytes frags = concat_bytes (map w_wire ms) ->
+  run_keep real PC Client init frags = (init, map w_delivered ms, None).
+Proof.
+  intros H Hl E.
+  apply (client_any_fragmentation PC (concat_bytes (map w_wire ms)) (map w_delivered ms) frags).
+  - apply pipeline_delivered, H.
+  - clear H E. induction ms as [|m ms IH]; cbn [map]; [constructor|].
+    inversion Hl as [|m' ms' Hm Hms]; subst. constructor; [exact Hm | exact (IH Hms)].
+  - exact E.
+Qed.
+
